@@ -72,6 +72,12 @@ FRAME_PRELUDE = [
     "  | _ => false end.",
     "Definition enc_eq (c : option compressor) (f : Frame) (bs : list Z) : bool :=",
     "  match encode_frame the_msg_codec c f with Ok b => list_beq Z Z.eqb b bs | Err => false end.",
+    "Definition dec_eq_rest (c : option compressor) (bs : list Z) (expect : Frame) (restlen : Z) : bool :=",
+    "  match decode_frame the_msg_codec c bs with",
+    "  | DOk f rest => Frame_beq (canon_frame f) (canon_frame expect) && Z.eqb (zlen rest) restlen",
+    "  | _ => false end.",
+    "Definition enc_err (c : option compressor) (f : Frame) : bool :=",
+    "  match encode_frame the_msg_codec c f with Ok _ => false | Err => true end.",
     "Definition dec_class (c : option compressor) (bs : list Z) : Z :=",
     "  match decode_frame the_msg_codec c bs with DOk _ _ => 0 | DErr => 1 | DPanic => 2 | DFuel => 3 end.",
 ]
@@ -117,6 +123,27 @@ def comp_term(r):
     return "(mkcomp %s %s)" % (hxs(r.get("raw_body", "")), hxs(r["bytes"][2 * hdr:]))
 
 
+def nonvalid_cases(recs):
+    """Frames outside the property's domain (harness phase `nonvalid`): never judged, but the model must still do what the code does
+    (same bytes when the encoder accepts, an error when it refuses, same decoded frame) - this ties the error branches of the model."""
+    cases = []
+    for r in recs:
+        if r.get("valid", True) or is_known_lz4(r) or len(r.get("bytes", "")) > 12000 or not r.get("frame"):
+            continue
+        c = comp_term(r)
+        if r.get("encode") == "ok":
+            if r.get("deterministic"):
+                cases.append((r["id"] + ":nv-enc", "enc_eq %s %s %s" % (c, r["frame"], hxs(r["bytes"]))))
+            if r.get("decode") == "ok" and r.get("decoded"):
+                cases.append((r["id"] + ":nv-dec", "dec_eq_rest %s %s %s %d" % (c, hxs(r["bytes"]), r["decoded"],
+                                                                             len(r["bytes"]) // 2 - int(r.get("consumed", len(r["bytes"]) // 2)))))
+            elif r.get("decode") == "err":
+                cases.append((r["id"] + ":nv-decerr", "Z.eqb (dec_class %s %s) 1" % (c, hxs(r["bytes"]))))
+        elif r.get("encode") == "err":
+            cases.append((r["id"] + ":nv-encerr", "enc_err %s %s" % (c, r["frame"])))
+    return cases
+
+
 def is_known_lz4(r):
     return r.get("class") == LZ4_CLASS and r.get("compression") == "lz4"
 
@@ -131,6 +158,8 @@ def frame_prelude(run, prop, broken):
     run.add_proof(pr)
     if not pr["ok"]:
         broken.append("props/%s.v or a dependency no longer checks: %s %s" % (prop, pr["failed_at"], pr["errors"]))
+    if run.tier == "thorough" and pr["ok"]:
+        thorough_coqchk(run, prop, broken)
     run.coverage["trusted_base"].append("coq/model/{Prim,DataType,Msg*,Frame}.v: hand-written mirror of primitive/, datatype/, message/, frame/; "
                                         "faithful only as far as the correspondence run compared it with the compiled code")
     return fails, pr
@@ -161,3 +190,14 @@ def slim(r, keys=("id", "kind", "version", "flags", "compression", "phase", "var
         if isinstance(d.get(k), str) and len(d[k]) > 4000:
             d[k] = d[k][:4000] + "...(truncated; re-run harness-frame gen with the same seed for the full record)"
     return d
+
+
+def thorough_coqchk(run, prop, broken):
+    """Thorough tier: re-check the compiled property file and everything it depends on with the independent checker."""
+    with vlib.Lock():
+        rc, out = vlib.coqchk(prop)
+    tail = " ".join(out.strip().split("\n")[-12:])
+    run.coverage["coqchk"] = {"rc": rc, "tail": tail[-1500:]}
+    run.coverage["checker_cmd"] += " ; coqchk -silent -o -Q . GCNP GCNP.props.%s" % prop
+    if rc != 0:
+        broken.append("coqchk rejects props/%s.vo: %s" % (prop, tail[-400:]))
